@@ -39,6 +39,13 @@ Theorem C01_refinement_full : forall c o t n h, t <> TNt -> forallb (full_op t) 
 Proof. exact final_refines_full. Qed.
 Print Assumptions C01_refinement_full.
 
+(** ... and for endpoint-set keys with NO exception at all: a resolution looks up the endpoint set named by the cluster it
+    finds, which is read off the cluster's own complete fold ([ep_ffold]).  Together: every type, every history. *)
+Theorem C01_refinement_full_endpoints : forall c o n h pre,
+  absf TEp n (fst (run c o (final c o pre) h)) = ep_ffold c o n pre (absf TEp n (final c o pre)) h.
+Proof. exact run_refines_ep_full. Qed.
+Print Assumptions C01_refinement_full_endpoints.
+
 Theorem C01_full_example :
   let c := {| sc_nds_required := false; sc_f := {| f_ns := "default"; f_dom := "cluster.local" |} |} in
   let o := mk_oracle [] [] [] in
